@@ -36,7 +36,7 @@ func maxBlockSize(cid cid.Cid) (int, error) {
 // registerBlock registers the new Block type and multihash for it.
 func registerBlock(mhcode, codec uint64, maxSize, idSize int, bldrFn func(cid.Cid) (Block, error)) {
 	mh.Register(mhcode, func() hash.Hash {
-		return &hasher{IDSize: idSize}
+		return &hasher{IDSize: idSize, MhCode: mhcode}
 	})
 	specRegistry[codec] = blockSpec{
 		idSize:  idSize,
